@@ -57,6 +57,19 @@ type NNum struct {
 
 func (NNum) EventTypeName() string { return "0042" }
 
+// named NON-struct event types with a custom name
+type NTick int64
+
+func (NTick) EventTypeName() string { return "ntick.v1" }
+
+type NBatch []int
+
+func (NBatch) EventTypeName() string { return "nbatch.v1" }
+
+type NMap map[string]int
+
+func (NMap) EventTypeName() string { return "nmap.v1" }
+
 type namesStore interface {
 	eb.EventStore
 	eb.SubscriptionStore
@@ -173,6 +186,12 @@ func namesDomain(lines []string) []string {
 			out = append(out, runShapeOn(k, NNum{7}, true)) // on the SQLite store
 		case 16:
 			out = append(out, runShapeOn(k, &NPlain{7}, true))
+		case 17:
+			out = append(out, runShape(k, NTick(7)))
+		case 18:
+			out = append(out, runShape(k, NBatch{7, 8}))
+		case 19:
+			out = append(out, runShape(k, NMap{"a": 7}))
 		default:
 			out = append(out, "bad-op "+line)
 		}
